@@ -178,3 +178,9 @@ def r6(rr, repo):
 def r7(rr, repo):
     from .c04 import request_mark_obligations
     request_mark_obligations(rr, repo, marks=('new',))
+
+
+@rule('C06.R8', 'the publisher keeps trying: between two attempts it waits for a request, and it stops only on success, on a newer id asked for, or when its time ran out (shares C04.R9)')
+def r8(rr, repo):
+    from .c04 import r9 as c04r9
+    c04r9(rr, repo)
